@@ -33,14 +33,18 @@ CHECKS = {
 }
 
 CHECKS['C15'] = dict(
-    technique='Lean 4 theorems over kernels translated from process.py/comp_utils.py on every run + exact-arithmetic memory model + differential correspondence',
-    text=('Theorems (Usid/Properties/C15.lean): budget inequality and monotonicity of the exact-arithmetic model of '
-          '__set_memory for every budget/multiplier/worker count; 1 <= cores <= logical for the GENERATED __set_cores and '
+    technique='Lean 4 theorems over kernels translated from process.py/comp_utils.py on every run (incl. __set_memory, floats as exact fractions) + differential correspondence',
+    text=('Theorems (Usid/Properties/C15.lean): the GENERATED __set_memory (translated from process.py on every run, '
+          'floats as exact fractions) equals the exact-arithmetic model for every available memory, limit of either '
+          'sign, multiplier >= 1, worker count and row size (generated_set_memory_eq_hand), hence the budget inequality '
+          '(generated_budget), monotonicity and admits-one-row hold of what the source says now; |multiplier| < 1, zero '
+          'workers and zero-byte rows raise; 1 <= cores <= logical for the GENERATED __set_cores and '
           'recommend_cpu_cores for every request (None, negative, zero, beyond the machine), requested_cores=0 and '
           'num_jobs=0 raise; the compute loop assembled from the generated window/recommender terminates with the '
           'windows tiling the pending range when the batch is >= 1 and stops with ValueError, marking nothing, when it '
           'is 0. Correspondence: simulated machines (psutil patched in the harness), constructor sizing vs model, '
-          'paired budgets for monotonicity, real compute() under a watchdog for zero/one-row budgets.'),
+          'paired budgets for monotonicity, real compute() under a watchdog for zero/one-row budgets, fresh and resumed '
+          '(completed set with holes), with every read of the source traced against the batch limit.'),
     note=COMMON_NOTE + 'IEEE rounding inside __set_memory is not modelled (exact rational of the float multiplier; '
          'generated multipliers are dyadic so float floor equals exact floor); MPI branch of __set_cores not modelled; '
          'zero-budget claim is about the default _unit_computation.',
